@@ -37,12 +37,22 @@ type g2lTarget struct {
 	callSubst      map[string]string // Go callee text -> Lean function (arguments kept)
 	dropCalls      []string          // callee prefixes of statements without effect on the result (logging)
 	intLen         bool
+	// part of a function instead of its whole body:
+	closureOf string   // translate the body of the function literal passed to this callee (e.g. "repo.ListSignatures")
+	after     string   // translate the top-level statements AFTER the statement that calls this callee
+	captures  []string // variables of the enclosing function the part reads and writes: they are
+	// parameters of the Lean definition (same names) and are returned, as a tuple, after the results
+	dropArgs   []string // identifiers dropped from every argument list (context.Context values)
+	dropAssign []string // assignment targets (exprText) whose assignments are left out; each is an
+	// abstraction that must be named in the trusted base of the theorem that uses the translation
+	nres int // number of results of the part (closures: of the function literal)
 }
 
 type g2l struct {
 	t     *g2lTarget
 	opt   map[string]bool
 	pkgs  map[string]bool // imported package names of the file
+	declared map[string]bool // locals already introduced with `let mut` (Go's := may re-declare them; Lean may not shadow)
 	owned map[string]bool // locals holding a value created in this function (literal, make, var of value type):
 	// only these may be updated in place - anything else may alias memory the caller or another
 	// variable sees, which a value-semantics translation would silently lose
@@ -204,6 +214,21 @@ func (g *g2l) binary(x *ast.BinaryExpr) string {
 
 func (g *g2l) call(x *ast.CallExpr) string {
 	name := callName(x)
+	var kept []ast.Expr
+	for _, e := range x.Args {
+		drop := false
+		if id, ok := e.(*ast.Ident); ok {
+			for _, d := range g.t.dropArgs {
+				if d == id.Name {
+					drop = true
+				}
+			}
+		}
+		if !drop {
+			kept = append(kept, e)
+		}
+	}
+	x = &ast.CallExpr{Fun: x.Fun, Lparen: x.Lparen, Args: kept, Ellipsis: x.Ellipsis, Rparen: x.Rparen}
 	args := func() string {
 		var a []string
 		for _, e := range x.Args {
@@ -304,6 +329,9 @@ func (g *g2l) composite(x *ast.CompositeLit) string {
 	// error types carry only their kind
 	if strings.HasSuffix(tn, "Error") || strings.HasPrefix(tn[strings.LastIndex(tn, ".")+1:], "Err") {
 		return "(GoLite.errT " + leanStr(exprText(x.Type)) + " \"\")"
+	}
+	if len(x.Elts) == 0 {
+		return "(default : " + tn + ")"
 	}
 	var fs []string
 	for _, el := range x.Elts {
@@ -439,8 +467,11 @@ func (g *g2l) assignTo(o *g2lOut, ind int, lhs ast.Expr, rhs string, define bool
 	}
 	switch l := lhs.(type) {
 	case *ast.Ident:
-		if define {
+		if define && l.Name != "_" && !g.declared[l.Name] {
+			g.declared[l.Name] = true
 			o.line(ind, "let mut "+g2lIdent(l.Name)+" := "+rhs)
+		} else if l.Name == "_" {
+			o.line(ind, "let _ := "+rhs)
 		} else {
 			o.line(ind, g2lIdent(l.Name)+" := "+rhs)
 		}
@@ -471,6 +502,20 @@ func (g *g2l) assignTo(o *g2lOut, ind int, lhs ast.Expr, rhs string, define bool
 		}
 	}
 	g.fail(n, "unsupported assignment target %s", exprText(lhs))
+}
+
+// g2lOptionCall: a call whose (nil-able) result is already an Option in Lean: every call except
+// the constructors of error values
+func g2lOptionCall(e ast.Expr) bool {
+	c, ok := e.(*ast.CallExpr)
+	if !ok {
+		return false
+	}
+	switch callName(c) {
+	case "fmt.Errorf", "errors.New":
+		return false
+	}
+	return true
 }
 
 // g2lCreates: the expression creates a fresh value (literal, &literal, make, new)
@@ -515,6 +560,7 @@ func (g *g2l) stmt(o *g2lOut, ind int, s ast.Stmt) {
 		for _, sp := range gd.Specs {
 			vs := sp.(*ast.ValueSpec)
 			for i, n := range vs.Names {
+				g.declared[n.Name] = true
 				if i < len(vs.Values) {
 					g.owned[n.Name] = g2lCreates(vs.Values[i])
 					o.line(ind, "let mut "+g2lIdent(n.Name)+" := "+g.expr(vs.Values[i]))
@@ -542,6 +588,13 @@ func (g *g2l) stmt(o *g2lOut, ind int, s ast.Stmt) {
 		}
 	case *ast.AssignStmt:
 		define := x.Tok == token.DEFINE
+		if len(x.Lhs) == 1 {
+			for _, d := range g.t.dropAssign {
+				if exprText(x.Lhs[0]) == d {
+					return
+				}
+			}
+		}
 		switch {
 		case x.Tok == token.ADD_ASSIGN || x.Tok == token.SUB_ASSIGN:
 			op := "+"
@@ -574,7 +627,38 @@ func (g *g2l) stmt(o *g2lOut, ind int, s ast.Stmt) {
 				}
 				names = append(names, g2lIdent(id.Name))
 			}
+			redecl := false
+			for _, l := range x.Lhs {
+				if id := l.(*ast.Ident); id.Name != "_" && g.declared[id.Name] {
+					redecl = true
+				}
+			}
 			kw := "let mut "
+			if define && redecl {
+				// some of the names exist already: bind the tuple to fresh names, then declare / assign
+				var tmp []string
+				for i := range names {
+					tmp = append(tmp, fmt.Sprintf("t%d'", i))
+				}
+				o.line(ind, "let ("+strings.Join(tmp, ", ")+") := "+rhs)
+				for i, l := range x.Lhs {
+					id := l.(*ast.Ident)
+					switch {
+					case id.Name == "_":
+					case g.declared[id.Name]:
+						o.line(ind, names[i]+" := "+tmp[i])
+					default:
+						g.declared[id.Name] = true
+						o.line(ind, "let mut "+names[i]+" := "+tmp[i])
+					}
+				}
+				return
+			}
+			if define {
+				for _, l := range x.Lhs {
+					g.declared[l.(*ast.Ident).Name] = true
+				}
+			}
 			if !define {
 				// re-assignment of existing variables through fresh names
 				var tmp []string
@@ -612,10 +696,16 @@ func (g *g2l) stmt(o *g2lOut, ind int, s ast.Stmt) {
 		var vs []string
 		for i, r := range x.Results {
 			v := g.expr(r)
-			if g.t.retOpt[i] && !isNil(r) && !g.isOpt(r) {
+			if g.t.retOpt[i] && !isNil(r) && !g.isOpt(r) && !g2lOptionCall(r) {
 				v = "(some " + v + ")"
 			}
+			if !g.t.retOpt[i] && isNil(r) {
+				v = "default" // nil slice / map
+			}
 			vs = append(vs, v)
+		}
+		for _, c := range g.t.captures {
+			vs = append(vs, g2lIdent(c))
 		}
 		if len(vs) == 1 {
 			o.line(ind, "return "+vs[0])
@@ -793,7 +883,7 @@ func (g *g2l) switchStmt(o *g2lOut, ind int, x *ast.SwitchStmt) {
 func g2lTranslate(t *g2lTarget) string {
 	f := parseFile(t.file)
 	fd := mustFunc(f, t.file, t.recv, t.fn)
-	g := &g2l{t: t, opt: map[string]bool{}, pkgs: map[string]bool{}, owned: map[string]bool{}}
+	g := &g2l{t: t, opt: map[string]bool{}, pkgs: map[string]bool{}, owned: map[string]bool{}, declared: map[string]bool{}}
 	for _, im := range f.Imports {
 		p, _ := strconv.Unquote(im.Path.Value)
 		n := p[strings.LastIndex(p, "/")+1:]
@@ -816,9 +906,54 @@ func g2lTranslate(t *g2lTarget) string {
 		}
 		return true
 	})
+	body := fd.Body.List
+	ftype := fd.Type
+	what := t.fn
+	if t.closureOf != "" {
+		var lit *ast.FuncLit
+		ast.Inspect(fd.Body, func(n ast.Node) bool {
+			if c, ok := n.(*ast.CallExpr); ok && callName(c) == t.closureOf {
+				for _, a := range c.Args {
+					if fl, ok := a.(*ast.FuncLit); ok {
+						lit = fl
+					}
+				}
+			}
+			return true
+		})
+		if lit == nil {
+			fail("go2lean %s.%s: no function literal passed to %s", t.recv, t.fn, t.closureOf)
+		}
+		body, ftype = lit.Body.List, lit.Type
+		what = t.fn + " (function literal passed to " + t.closureOf + ")"
+	}
+	if t.after != "" {
+		at := -1
+		for i, st := range fd.Body.List {
+			found := false
+			ast.Inspect(st, func(n ast.Node) bool {
+				if c, ok := n.(*ast.CallExpr); ok && callName(c) == t.after {
+					found = true
+				}
+				return true
+			})
+			if found {
+				at = i
+			}
+		}
+		if at < 0 {
+			fail("go2lean %s.%s: no top-level statement calls %s", t.recv, t.fn, t.after)
+		}
+		body = fd.Body.List[at+1:]
+		what = t.fn + " (statements after the call of " + t.after + ")"
+	}
+	for _, c := range t.captures {
+		g.owned[c] = true
+		g.declared[c] = true
+	}
 	nres := 0
-	if fd.Type.Results != nil {
-		for _, r := range fd.Type.Results.List {
+	if ftype.Results != nil {
+		for _, r := range ftype.Results.List {
 			if len(r.Names) == 0 {
 				nres++
 			} else {
@@ -832,10 +967,13 @@ func g2lTranslate(t *g2lTarget) string {
 	}
 	var o g2lOut
 	pos := fset.Position(fd.Pos())
-	o.line(0, fmt.Sprintf("/-- translated from `%s` (%s), %d statements -/", t.fn, t.file, len(fd.Body.List)))
+	o.line(0, fmt.Sprintf("/-- translated from `%s` (%s), %d statements -/", what, t.file, len(body)))
 	_ = pos
 	o.line(0, fmt.Sprintf("def %s %s : %s := Id.run do", t.leanName, t.params, t.ret))
-	g.block(&o, 1, fd.Body.List)
+	for _, c := range t.captures {
+		o.line(1, "let mut "+g2lIdent(c)+" := "+g2lIdent(c))
+	}
+	g.block(&o, 1, body)
 	// a body that can fall off its end (no results) needs nothing; one with results always ends in return
 	return o.b.String()
 }
@@ -845,7 +983,7 @@ func g2lTranslate(t *g2lTarget) string {
 func g2lDecls(file string, names []string) string {
 	f := parseFile(file)
 	t := &g2lTarget{file: file, fn: "(package-level declarations)"}
-	g := &g2l{t: t, opt: map[string]bool{}, pkgs: map[string]bool{}, owned: map[string]bool{}}
+	g := &g2l{t: t, opt: map[string]bool{}, pkgs: map[string]bool{}, owned: map[string]bool{}, declared: map[string]bool{}}
 	for _, im := range f.Imports {
 		p, _ := strconv.Unquote(im.Path.Value)
 		n := p[strings.LastIndex(p, "/")+1:]
